@@ -30,7 +30,7 @@ SIG_BRANCH_MOVED_LABEL = "patch-branch-to-label-of-block-deleted-in-same-batch"
 
 REJECTION_OWNER = {
     "whole-delete-then-insert": ("C01", SIG_WHOLE_DELETE_INSERT),
-    "branch-to-moved-label": ("C09", SIG_BRANCH_MOVED_LABEL),
+    "branch-to-moved-label": (None, None),  # legitimate when the label now stands on data
     "label-at-end": (None, None),  # documented limit, no finding
 }
 
